@@ -166,7 +166,7 @@ func TestVerifC12(t *testing.T) {
 	idx := 0
 	run := func(dev c12Dev, plan func(x *c12World) func(q *sim.Request) *sim.Fault, hook world.HookFunc, expectErr int) {
 		idx++
-		if !mc.Mine(idx) {
+		if !mc.MineKey(fmt.Sprintf("%+v", dev)) {
 			return
 		}
 		r.Case(dev, fmt.Sprint(idx), func() []mc.Finding {
